@@ -248,7 +248,13 @@ func AdmittingUnknown(r *core.Rand, part cty.Value, refined, allowDynamic bool) 
 			if r.Chance(1, 5) {
 				// a loose upper bound around the sizes at which code that multiplies, sums or caps length bounds
 				// changes its mind (32 / 64 / 1024 / 2048 thresholds, 31- and 62-bit products)
-				hi = n + looseLengths[r.Intn(len(looseLengths))]
+				// (absolute, not n+...: with n + 2^62 a product of bounds that wraps around is congruent to
+				// the exact product and can never look unsound)
+				if l := looseLengths[r.Intn(len(looseLengths))]; l >= n {
+					hi = l
+				} else {
+					hi = n + l
+				}
 			}
 			b = b.CollectionLengthUpperBound(hi)
 		}
